@@ -153,7 +153,7 @@ def run(tier):
     try:
         p = os.path.join(d, "t.ndjson")
         open(p, "w").write(vf.ndjson(obs))
-        viols, events, _ = vf.monitor_trace("DevDBMonitor", "DevDBMonitor.cfg", p)
+        viols, events, _ = vf.monitor_trace("DevDBMonitor", "DevDBMonitor.cfg", p, independent=True)
     finally:
         vf.rm(d)
     per = {}
